@@ -118,6 +118,14 @@ GroupsOk(pat, seen) ==
   /\ \A col \in 1..pat.n : PatRows(pat, col) # {} =>
         Cardinality({g \in 1..Len(seen) : \E a \in 1..Len(seen[g]) : seen[g][a] = col}) = 1
 
+\* event LISTS (PyLayer machine evlist; cases of class ev-list2 / ev-list3): the Rust run is configured PER EVENT from what
+\* EvListContract demands for that event function's own attributes, so the clauses "events" / "status" / "t" / "y" above state
+\* that every event function got its own configuration.  Scenario adequacy, measured by py_ref on the Rust API (r.census[e] =
+\* <<rising, falling>> crossings of event function e when no event is terminal): every event function is crossed in both
+\* directions inside the span -- otherwise a wrong direction or terminal flag on it could go unnoticed.  An inadequate
+\* scenario is a problem of the check (tool error), never a verdict about the code.
+Adequate(r) == \A e \in 1..Len(r.census) : r.census[e][1] >= 1 /\ r.census[e][2] >= 1
+
 \* Level B: the greedy grouping of PyLayer (groups numbered from 0, perturbed in order)
 ModelGroups(pat) == [g \in 1..pat.ngroups |-> {col \in 1..pat.n : pat.groups[col] = g - 1}]
 SeenSets(seen) == [g \in 1..Len(seen) |-> {seen[g][a] : a \in 1..Len(seen[g])}]
@@ -167,12 +175,17 @@ CheckBoth(x) ==
      /\ (r.status # "Success" => Note(r.status, x))
      /\ ((\E e \in 1..Len(r.t_events) : Len(r.t_events[e]) > 0) => Note("event-found", x))
 
-CheckLine(x) ==
+CheckPair(x) ==
   LET r == x.r  p == x.p IN
   IF r.ok /\ p.ok THEN CheckBoth(x)
   ELSE IF ~r.ok /\ ~p.ok THEN Note("both-fail", x)           \* Rust Err / panic  <=>  Python exception
   ELSE IF x.c.doc THEN Viol("raises", x, [rust_ok |-> r.ok, rust |-> r.msg, py_ok |-> p.ok, py_exc |-> p.exc, py_msg |-> p.msg])
   ELSE Drift("undocumented-option", x, [rust_ok |-> r.ok, py_ok |-> p.ok, py_exc |-> p.exc])
+
+CheckLine(x) ==
+  /\ IF Adequate(x.r) THEN (Len(x.r.census) = 0 \/ Note("evlist-both-directions", x))
+                      ELSE PrintT(<<"INADEQUATE", "C20", x.id, x.r.census>>)
+  /\ CheckPair(x)
 
 Init == /\ LET all == Load IN TLCSet(1, all) /\ TLCSet(2, Len(all))
         /\ l = 1
